@@ -150,7 +150,33 @@ def expected(script):
     return "\n".join(out) + "\n"
 
 
+def generate_storm(rng):
+    """Garbage storm: 4-6 threads that do little else than allocate short-lived nodes, so that
+    the young generation fills up again and again while some thread is still on its way
+    through the collect-and-retry ladder of the allocator."""
+    t = rng.randint(4, 6)
+    phases = rng.randint(1, 2)
+    nslots = 2
+    code = [[None] * phases for _ in range(t)]
+    for p in range(phases):
+        for tid in range(t):
+            ops = [(0, 0, rng.choice([0, 3]), 0)]
+            for _ in range(rng.randint(1, 3)):
+                ops.append((4, rng.choice([15000, 30000, 60000]), rng.choice([0, 0, 2]), 0))
+                if rng.random() < 0.3:
+                    ops.append((5, 0, 0, 0))
+            code[tid][p] = ops
+    return flatten(t, phases, nslots, code)
+
+
+def is_storm(script):
+    t, phases, nslots, code = parse(script)
+    return any(op == 4 and x >= 15000 for th in code for ph in th for (op, x, _, _) in ph)
+
+
 def generate(rng):
+    if rng.random() < 0.12:
+        return generate_storm(rng)
     t = rng.randint(2, 5)
     phases = rng.randint(1, 5)
     nslots = rng.choice([2, 4, 8])
